@@ -101,12 +101,19 @@ impl CopyDriver for Driver {
             thread::spawn(move || tree_walker(sources, &d, &c, file_tx, sc))
         };
 
-        walk_worker.join()
-            .map_err(|_| XcpError::CopyError("Error walking copy tree".to_string()))??;
-        dispatcher.join()
-            .map_err(|_| XcpError::CopyError("Error dispatching copy operation".to_string()))??;
+        // Wait for both threads before reporting the first failure,
+        // so that nothing is still being copied, or reported to
+        // `stats`, once we have returned.
+        let walked: Result<()> = match walk_worker.join() {
+            Ok(r) => r,
+            Err(_) => Err(XcpError::CopyError("Error walking copy tree".to_string()).into()),
+        };
+        let dispatched: Result<()> = match dispatcher.join() {
+            Ok(r) => r,
+            Err(_) => Err(XcpError::CopyError("Error dispatching copy operation".to_string()).into()),
+        };
 
-        Ok(())
+        walked.and(dispatched)
     }
 }
 
@@ -253,11 +260,34 @@ fn dispatch_worker(file_q: cbc::Receiver<Operation>, stats: &Arc<dyn StatusUpdat
     // update, which not every StatusUpdater passes on, so the failure
     // must also be returned from here.
     let failed = Arc::new(AtomicBool::new(false));
+    let queued = queue_operations(file_q, &copy_pool, stats, &config, &failed);
+    info!("Queuing complete");
+
+    // Also when queuing stopped early: the block jobs already handed
+    // to the pool keep running, and must be done before we return.
+    copy_pool.join();
+    info!("Pool complete");
+    queued?;
+
+    if failed.load(Ordering::SeqCst) {
+        return Err(XcpError::CopyError("Error copying file blocks".to_string()).into());
+    }
+
+    Ok(())
+}
+
+fn queue_operations(
+    file_q: cbc::Receiver<Operation>,
+    copy_pool: &ThreadPool,
+    stats: &Arc<dyn StatusUpdater>,
+    config: &Arc<Config>,
+    failed: &Arc<AtomicBool>,
+) -> Result<()> {
     for op in file_q {
         match op {
             Operation::Copy(from, to) => {
                 info!("Dispatch[{:?}]: Copy {:?} -> {:?}", thread::current().id(), from, to);
-                let r = queue_file_blocks(&from, &to, &copy_pool, stats, &config, &failed);
+                let r = queue_file_blocks(&from, &to, copy_pool, stats, config, failed);
                 if let Err(e) = r {
                     stats.send(StatusUpdate::Error(XcpError::CopyError(e.to_string())))?;
                     error!("Dispatcher: Error copying {:?} -> {:?}.", from, to);
@@ -292,14 +322,6 @@ fn dispatch_worker(file_q: cbc::Receiver<Operation>, stats: &Arc<dyn StatusUpdat
                 copy_node(&from, &to)?;
             }
         }
-    }
-    info!("Queuing complete");
-
-    copy_pool.join();
-    info!("Pool complete");
-
-    if failed.load(Ordering::SeqCst) {
-        return Err(XcpError::CopyError("Error copying file blocks".to_string()).into());
     }
 
     Ok(())
